@@ -24,11 +24,12 @@ func (Engine) Name() string { return "E1-doc" }
 
 // Runs implements core.Engine.
 func (Engine) Runs(prop, tier string) int {
+	quick := map[string]int{"C11": 40000, "C03": 150000}[prop]
 	if tier == "thorough" {
-		return 1000000
+		return quick * 40
 	}
 
-	return 30000
+	return quick
 }
 
 // Describe implements core.Engine.
